@@ -12,7 +12,15 @@ from ..report import Ctx
 from .c04 import restore_rule
 
 
+#: obligations whose failure contradicts the property (rule, construct pattern, why); every other failure is 'not recognised'
+POSITIVE: list[tuple[str, str, str]] = [
+    ('C07.R2', r':same-point$', 'reaching definitions: the point handed to RawResults is defined again after the main optimisation'),
+    ('C07.R1', r':one-function$', 'the three methods of the objective ask for differently scaled likelihoods'),
+]
+
+
 def run(ctx: Ctx) -> None:
+    ctx.positive_table = list(POSITIVE)
     prog = ctx.prog
     ctx.rule('C07.R1', 'sign-flip discipline: every field of the FunctionData returned by NegativeLikelihood is minus the same-named field of the likelihood '
              'output; hessian=True exactly in _f_g_h; the three methods evaluate the same (unscaled) function')
@@ -184,7 +192,13 @@ def run(ctx: Ctx) -> None:
     if okb:
         terms = tests[0].test.values if isinstance(tests[0].test, ast.BoolOp) and isinstance(tests[0].test.op, ast.And) else [tests[0].test]
         okb = all(re.fullmatch(r'\w+ is not None|\w+ != self\.initValue|self\.name in \w+', unparse(t)) for t in terms)
-    ctx.add('C07.R4', 'Beta.change_init_values:guard', okb, ci, f'a value is written whenever it is given ({det})' if okb else f'the write of initValue is guarded by `{det}`: a legitimate value (e.g. 0.0) may be skipped', det)
+    truthy = False
+    if tests and not okb:
+        # a bare truth test of the value among the guards drops 0.0
+        written = {unparse(x.value) for n in tests for x in n.body if isinstance(x, ast.Assign) and unparse(x.targets[0]) == 'self.initValue'}
+        truthy = any((isinstance(t, ast.Name) and t.id in written) for t in terms)
+    ctx.add('C07.R4', 'Beta.change_init_values:guard', okb if (okb or truthy) else None, ci, f'a value is written whenever it is given ({det})' if okb else
+            (f'the write of initValue is guarded by `{det}`: the truth test of the value skips a legitimate value of 0.0' if truthy else f'the guard `{det}` of the write of initValue is not in the expected form'), det, positive=truthy)
 
     restore_rule(ctx, 'C07.R5')
     # R6
